@@ -134,6 +134,8 @@ def mk_headers(spec):
         return Getter(d, True)
     if k == "iterable":
         return list(d.items())
+    if k == "iterator":
+        return iter(list(d.items()))      # a one-shot iterable of pairs (generator, zip): it can be walked once
     if k == "raising":
         return Raising()
     if k == "raising_mapping":
@@ -146,7 +148,11 @@ class HttpError(Exception):
 
 
 class Resp:
-    pass
+    """a response object that is falsy (requests.Response is, for every 4xx/5xx: __bool__ = ok; others define __len__ as the
+    body length): "no response" is `is None` only"""
+
+    def __len__(self):
+        return 0
 
 
 def enc_hint(r):
